@@ -337,6 +337,22 @@ func c16BGVSharing(c *Ctx, set c16BGVSet, n, lvl int, sigma float64) {
 				detail = "wrong_level"
 			}
 		}
+		if detail == "" {
+			// receivers allocated at every level, pre-filled with junk
+			var others []*rlwe.Ciphertext
+			for r := 0; r <= set.maxQ(); r++ {
+				o := c14RandCt(c, params, 1, r)
+				*o.MetaData = *ct.MetaData
+				if err := s2e[0].GetEncryption(aggO, crp, o); err != nil {
+					detail = fmt.Sprintf("GetEncryption_error_receiver_level_%d", r)
+					break
+				}
+				others = append(others, o)
+			}
+			if detail == "" {
+				detail = c16SameCt(rec, others, lout)
+			}
+		}
 		c.Probe("e2s_s2e_id", fmt.Sprintf("bgv set=%s N=%d lvl=%d lout=%d sigma=%g scale=%d", set.name, n, lvl, lout, sigma, scale), "C16-bgv-s2e", detail)
 	}
 }
@@ -527,6 +543,18 @@ func c16BGVRefresh(c *Ctx, set c16BGVSet, n, lin, lout int, sigma float64, fn *c
 		}
 		if out.Scale.Cmp(ct.Scale) != 0 {
 			return "output_scale_differs_from_input_scale"
+		}
+		// receivers allocated at every level, pre-filled with junk: same output at the CRP's level
+		var others []*rlwe.Ciphertext
+		for r := 0; r <= set.maxQ(); r++ {
+			o := c14RandCt(c, params, 1, r)
+			if err := protos[0].Transform(ct.CopyNew(), tf, crp, agg, o); err != nil {
+				return fmt.Sprintf("Transform_error_receiver_level_%d", r)
+			}
+			others = append(others, o)
+		}
+		if d := c16SameCt(out, others, lout); d != "" {
+			return d
 		}
 		if fn == nil {
 			have := make([]uint64, len(coeffs))
